@@ -332,6 +332,7 @@ retry:
 			// which was deleted before x got published at level 0. Its deleter's
 			// unlink pass stops at x, so it must be taken off this level before
 			// x is linked in front of it: search again, which unlinks it.
+			verifYield(VerifPtInsSucc)
 			if _, nextDeleted := next.getNext(i); nextDeleted {
 				s.findPath(itm, insCmp, buf, sts)
 				continue fixThisLevel
